@@ -321,7 +321,8 @@ func copyToLayer(base Fs, layer Fs, name string) error {
 }
 
 func copyFileToLayer(base Fs, layer Fs, name string, flag int, perm os.FileMode) error {
-	bfh, err := base.OpenFile(name, flag, perm)
+	// the copy reads the whole file: a handle opened for appending would start at its end
+	bfh, err := base.OpenFile(name, flag&^os.O_APPEND, perm)
 	if err != nil {
 		return err
 	}
